@@ -35,7 +35,10 @@ Rejects(w, op) ==
       [] op.k = "slice_value" -> (op.start # None /\ \A i \in 1..Len(w.x) : w.x[i] # op.start)
                                  \/ (op.stop # None /\ \A i \in 1..Len(w.x) : w.x[i] # op.stop)
       [] op.k = "recreate" -> op.n < 2
+      \* (an unknown name of the fixed-point search strategy is refused whatever the two series look like - seed C20k: accepted
+      \*  while working and reference abscissae coincide)
       [] op.k = "integral_match" -> op.trule \notin Rules \/ op.rrule \notin Rules
+                                    \/ ("fstrategy" \in DOMAIN op /\ op.fstrategy \notin {"closest", "lower", "higher"})
       [] op.k = "interpolate_grid" -> op.q[1] # w.x[1] \/ Last(op.q) # Last(w.x) \/ op.method \notin {"linear", "constant", "cubic", "spline"}
       [] op.k = "interpolate_n" -> op.method \notin {"linear", "constant", "cubic", "spline"}
       [] op.k = "interpolate_none" -> TRUE                \* neither a number of samples nor a grid was given
